@@ -53,6 +53,10 @@ class EFLRSetsDict(defaultdict):
             An EFLRSet instance of given subtype and name, registered in the structure.
         """
 
+        if not set_name:
+            # an empty set name is no set name: the set is written without a name, so it must be the unnamed set
+            set_name = None
+
         # dict mapping set names on EFLRSet (subclass) instances
         eflr_set_dict: dict[Union[str, None], AnyEFLRSet] = self[eflr_set_type]
 
